@@ -110,6 +110,7 @@ def consts_in(fn, nid):
 
 
 def r2(ctx):
+    ctx.mark('answer-key', 'C15.R2')
     ctx.rule('C15.R2', 'the masks used to shorten / generalise the lookup key in getAnswer (source wildcard, length field, '
              'ID byte to drop, new length) and the destination extraction in hasAnswer address exactly the bit fields '
              'createAnswerKey builds (length at bit 61, source number 5 bits at 56, destination byte at 48, ID byte p at '
@@ -427,6 +428,15 @@ def r12(ctx):
 
 
 def run(ctx):
+    import rules.common as _cmm
+    ctx.rule('C15.R16', 'a mask for a 64 bit value is computed in 64 bits: where the sources of this property combine a 64 bit integer (a key) by &, | or ^ with an operand the compiler widens from 32 bits or less, that operand contains no shift or complement with a non-constant value - ~(0xff << 8*(3-len)) in int clears the whole upper half of the key (length, source, destination, command) for the last shortening', minimum=6)
+    _cmm.wide_mask_rule(ctx, 'C15.R16', lambda f: f.relfile.startswith(('src/lib/ebus/protocol',)), 6)
+    import rules.common as _cmw
+    ctx.rule('C15.R15', 'a 64 bit key or time stays 64 bit: where the sources of this property call a repository function declared to return uint64_t (message and answer keys, the millisecond clock), the result is not converted implicitly to a narrower integer at the call - a key held in an unsigned int loses ID length, source, destination and command bytes and never matches a stored key again', minimum=2)
+    _cmw.wide_result_rule(ctx, 'C15.R15', lambda f: f.relfile.startswith(('src/lib/ebus/protocol',)), 2)
+    import rules.common as _cm
+    ctx.rule('C15.R14', "a value is compared with a constant in the domain of its own type: in the sources of this property every comparison of a variable, member, element or call result with an integer constant (==, !=) has the constant inside the value range of the operand's own integer type before promotion - a symbol held in a signed char never equals 0xA9/0xAA/0xFE, so the escape, SYN or broadcast test behind it is dead for exactly the symbols it exists for", minimum=40)
+    _cm.compare_domain_rule(ctx, 'C15.R14', lambda f: f.relfile.startswith(('src/lib/ebus/protocol', 'src/lib/ebus/symbol.')), 40)
     r12(ctx)
     r1(ctx)
     r2(ctx)
